@@ -28,7 +28,7 @@ class CloudpickledObjectWrapper:
 
 # Make sure the wrapped object conserves the callable property
 class CallableObjectWrapper(CloudpickledObjectWrapper):
-    def __call__(self, *args, **kwargs):
+    def __call__(self, /, *args, **kwargs):
         return self._obj(*args, **kwargs)
 
 
